@@ -33,7 +33,7 @@ def run(ctx):
         if isinstance(fin[0], str) and fin[0].startswith("panic:"):
             sig = "panic:%s:%s" % (x["kind"], fin[0][6:])
         else:
-            sig = "hist:%s%s:%s" % (x["kind"], "(cancelled-ctx)" if x.get("deadctx") else "", "-".join(x["chain"]))
+            sig = "hist:%s%s:%s" % (x["kind"], "(cancelled-ctx)" if x.get("deadctx") else "(cancelled-root)" if x.get("deadroot") else "", "-".join(x["chain"]))
         ctx.violation(sig, "call trace of the real %s chain %s (request #%d on the chain) differs from Chain.tla: expected %s got %s" % (
             x["kind"], x["chain"], x["rep"] + 1, json.dumps(x["expect"]), json.dumps(x["got"])), x)
     # B3: concurrent requests sharing a chain, validated by TLC
